@@ -24,6 +24,11 @@
 (*            a case variant (Bb-Mib for BB-MIB) that the directory reader still *)
 (*            resolves to the file BB-MIB.txt                                   *)
 (*   dstA/B : "absent" | "fresh" | "stale"  file in the destination beforehand *)
+(*   dstKind: "dir" | "file"   --destination-directory names a directory, or an *)
+(*            existing regular file (nothing can be stored, nothing looked up)   *)
+(*   reqForm: "name" | "path"  modules are requested by name, or as paths of    *)
+(*            files in the first source directory (the script then adds that    *)
+(*            directory to the sources itself and strips directory + extension) *)
 (*   borA/B : BOOLEAN                       file in the borrower directory     *)
 (*   base   : BOOLEAN                       SNMPv2-SMI/-TC/-CONF in the source  *)
 (*   noDeps, rebuild, ignoreErrors, noWrites, dryRun, buildIndex, quiet : flags *)
@@ -32,7 +37,7 @@
 (*            flag at the moment --mib-borrower is read)                        *)
 EXTENDS MibCompile
 
-CONSTANTS Fmt,        \* "json" | "pysnmp"   (decides searcher list, index support)
+CONSTANTS Fmt,        \* "json" | "pysnmp" | "null"   (decides searcher list, writer, index support)
           Dom,        \* the worlds to explore: a record of field domains ...
           Keep(_)     \* ... and a filter on worlds
 
@@ -76,14 +81,16 @@ SrcAnsOf(wd, k, n) ==
 
 DstOf(wd, m) == CASE m = "AA-MIB" -> wd.dstA [] m = "BB-MIB" -> wd.dstB [] OTHER -> "absent"
 \* the borrower's reader also tries the upper-case variant of a name: Aa-Mib finds AA-MIB.json
-BorOf(wd, m) == CASE m \in {"AA-MIB", "Aa-Mib"} -> wd.borA [] m \in {"BB-MIB", "Bb-Mib"} -> wd.borB [] OTHER -> FALSE
+\* (the null format configures AnyFileBorrower without extensions: its variant list is empty and it never lends)
+BorOf(wd, m) == CASE Fmt = "null" -> FALSE [] m \in {"AA-MIB", "Aa-Mib"} -> wd.borA [] m \in {"BB-MIB", "Bb-Mib"} -> wd.borB [] OTHER -> FALSE
 
 \* searcher lists:  json   = [AnyFileSearcher(dst), StubSearcher(base)]
 \*                  pysnmp = [PyFileSearcher(dst), PyPackageSearcher(pysnmp.smi.mibs), PyPackageSearcher(pysnmp_mibs), StubSearcher(base)]
-FileSearcher(wd, m) == IF wd.rebuild THEN "silent" ELSE IF DstOf(wd, m) = "fresh" THEN "fresh" ELSE "absent"
+\*                  null   = [StubSearcher(base)]
+FileSearcher(wd, m) == IF wd.rebuild THEN "silent" ELSE IF wd.dstKind = "dir" /\ DstOf(wd, m) = "fresh" THEN "fresh" ELSE "absent"
 SeaAnsOf(wd, k, m) ==
-  IF k = 1 THEN FileSearcher(wd, m)
-  ELSE IF k = NSea THEN (IF m \in BaseSet THEN "fresh" ELSE "absent")
+  IF k = NSea THEN (IF m \in BaseSet THEN "fresh" ELSE "absent")
+  ELSE IF k = 1 THEN FileSearcher(wd, m)
   ELSE IF k = 2 /\ m \in BaseSet THEN (IF wd.rebuild THEN "silent" ELSE "fresh")      \* pysnmp ships these modules
   ELSE "absent"
 
@@ -99,7 +106,7 @@ EnvOf(wd) ==
        [] k[1] = "src"   -> SrcAnsOf(wd, k[2], k[3])
        [] k[1] \in {"sea", "bsea"} -> A(SeaAnsOf(wd, k[2], k[3]))
        [] k[1] = "bor"   -> A(IF BorOf(wd, k[3]) THEN "ok" ELSE "nf")
-       [] OTHER          -> A("ok")]
+       [] OTHER          -> A(IF wd.dstKind = "file" /\ ~wd.dryRun /\ Fmt # "null" THEN "err" ELSE "ok")]    \* "put" (a dry run never touches the disk)
 
 \* ---------------------------------------------------------------- code generator's answer
 \* modules that own a symbol table now, and what they import
@@ -111,7 +118,8 @@ ImpClosure(S, n) == IF n = 0 THEN S
                  ELSE ImpClosure(S \cup UNION {IF x \in SymHolders THEN ImportsOfHolder(x) ELSE {} : x \in S}, n - 1)
 \* the fixture's OID chains cross module borders, so generating m needs the symbol table of every
 \* module reachable from m through IMPORTS
-GenWorks(m) == ImpClosure({m}, 4) \subseteq SymHolders
+\* (the null generator needs no symbol table at all)
+GenWorks(m) == Fmt = "null" \/ ImpClosure({m}, 4) \subseteq SymHolders
 
 \* ---------------------------------------------------------------- the script
 NoReport == [c \in Status |-> {}]
@@ -126,7 +134,7 @@ DInitW(wd) ==
 
 DInit ==
   \E wd \in [usage : Dom.usage, req : Dom.req, srcA : Dom.srcA, src2A : Dom.src2A, srcB : Dom.srcB, alias : Dom.alias, imp : Dom.imp, spell : Dom.spell,
-             dstA : Dom.dstA, dstB : Dom.dstB, borA : Dom.borA, borB : Dom.borB, base : Dom.base,
+             dstA : Dom.dstA, dstB : Dom.dstB, dstKind : Dom.dstKind, reqForm : Dom.reqForm, borA : Dom.borA, borB : Dom.borB, base : Dom.base,
              noDeps : Dom.noDeps, rebuild : Dom.rebuild, ignoreErrors : Dom.ignoreErrors, noWrites : Dom.noWrites,
              dryRun : Dom.dryRun, texts : Dom.texts, buildIndex : Dom.buildIndex, quiet : Dom.quiet] :
      Keep(wd) /\ DInitW(wd)
@@ -155,6 +163,12 @@ DIndex ==
      ELSE IF Fmt = "pysnmp"
           THEN \* PySnmpCodeGen has no genIndex(): NotImplementedError leaves the script (finding F-C20-pysnmp-index)
                dpc' = "done" /\ exitc' = 1 /\ idxw' = idxw
+          ELSE IF Fmt = "null"
+          THEN dpc' = "report" /\ UNCHANGED <<exitc, idxw>>          \* empty index handed to a writer that stores nothing
+          ELSE IF w.dstKind = "file" /\ ~w.dryRun
+          THEN \* the index cannot be stored: PySmiWriterError; the script exits 70 unless --ignore-errors
+               IF w.ignoreErrors THEN dpc' = "report" /\ UNCHANGED <<exitc, idxw>>
+               ELSE dpc' = "done" /\ exitc' = 70 /\ idxw' = idxw
           ELSE dpc' = "report" /\ idxw' = ~w.dryRun /\ exitc' = exitc
   /\ UNCHANGED <<vars, w, reported, report>>
 
@@ -179,7 +193,8 @@ DSpec == DInit /\ [][DNext]_allvars /\ WF_allvars(DArgs \/ DCompile \/ DIndex \/
 
 \* ---------------------------------------------------------------- observables and C20 formulas
 \* module files created or replaced in the destination
-Written(lg) == {lg[i].name : i \in {j \in DOMAIN lg : lg[j].ev = "put" /\ lg[j].ans = "ok" /\ ~lg[j].flag}}
+Written(lg) == IF Fmt = "null" THEN {}       \* the null format hands every text to a writer that stores nothing
+               ELSE {lg[i].name : i \in {j \in DOMAIN lg : lg[j].ev = "put" /\ lg[j].ans = "ok" /\ ~lg[j].flag}}
 StatusSet(p, S) == {m \in DOMAIN p : p[m].st \in S}
 
 \* the formulas are written over (world options, exit, report, status map, files) so that the trace
@@ -189,7 +204,7 @@ Usage64(us, ex, files, idx, ncompiles) == us \notin {"none", "help"} => ex = 64 
 HelpDoesNothing(us, ex, files, idx, ncompiles) == us = "help" => ex = 0 /\ files = {} /\ ~idx /\ ncompiles = 0
 ReportMatchesStatus(rep, isrep, p) == isrep => \A c \in Status : rep[c] = StatusSet(p, {c})
 FilesAreReported(files, p, dry, nowrites) ==
-  files = IF dry \/ nowrites THEN {} ELSE StatusSet(p, {"compiled", "borrowed"})
+  files = IF dry \/ nowrites \/ Fmt = "null" THEN {} ELSE StatusSet(p, {"compiled", "borrowed"})
 IndexOnlyWhenAsked(idx, bi, dry) == idx => bi /\ ~dry
 
 Done == dpc = "done"
@@ -202,7 +217,7 @@ P_IndexOnlyWhenAsked == Done => IndexOnlyWhenAsked(idxw, w.buildIndex, w.dryRun)
 \* the script ends for every world (no livelock in compile(), report and exit always reached or crash recorded)
 DTermination == <>(dpc = "done")
 \* design-level statement of the finding: a completed compile() is always followed by a report (fails for pysnmp + --build-index)
-P_CompletedRunsReport == Done /\ w.usage = "none" /\ ~w.quiet => reported
+P_CompletedRunsReport == Done /\ w.usage = "none" /\ ~w.quiet /\ Written(log) # {} => reported
 DTypeOK == /\ dpc \in {"args", "compile", "report", "exit", "done"}
            /\ exitc \in {255, 0, 1, 64, 70, 79}
            /\ TypeOK
